@@ -156,6 +156,17 @@ CLAIMED = {
          "relocate_BZ_grid_address. Finding E17 (time reversal applied to arbitrarily shifted meshes) repaired by a fix: commit.",
     technique="deductive verification: call-site preconditions by symbolic execution of the Python callers (provenance of abstracted arrays, exact 3x3 identities)",
     design="DESIGN.md section 5 C09"),
+ "C03": dict(
+    text="Hermiticity: make_Hermitian and dym_get_dynamical_matrix_at_q (c/dynmat.c) under contract, output == herm(Dspec) and D[x][y] == conj D[y][x] for "
+         "every input (both OpenMP branches). Lemmas over the spec function Dspec the kernel is proved equal to, each by induction over its recursive sums "
+         "(base and step discharged by z3): time reversal (q -> -q gives Tre' = Tre, Tim' = -Tim, i.e. D(-q) = conj D(q), from trig parity only) and scaling "
+         "(force constants times s and masses times t give D' = (s/t) D; sqrt(t m_i t m_j) = t sqrt(m_i m_j)). Python: get_pointgroup_operations returns, for "
+         "any list of direct-space operations, their transposes and -transposes exactly when time reversal adds -1; Primitive._get_smallest_vectors keeps the "
+         "Cartesian vector when changing to primitive coordinates (exact rational identity), which is what makes the phase change by 2 pi x integer under q+G.",
+    note=TRUST + "NOT decided: invariance of the spectrum under q -> q+G and q -> Rq (needs angle addition and unitary similarity of spectra), the three zero "
+         "eigenvalues at Gamma (eigenvalue reasoning), LAPACK. The induction principle is trusted; cos/sin are uninterpreted with parity axioms.",
+    technique="deductive verification: kernel contracts + relational induction lemmas over the recursive-sum spec functions (z3), exact identities (sympy)",
+    design="DESIGN.md section 5 C03"),
 }
 
 NA = {
